@@ -293,23 +293,43 @@ func isAbsentChild(e *Env) bool {
 // (codec.Clear is public API and the generated frame codecs explicitly tolerate an absent service):
 // what a property says about lengths, consumption or panics must not depend on that registry state.
 func runAbsentChild(e *Env) {
+	runVariantChild(e, "registry-absent-child", "absent", "rerun_with_checksum_services_unregistered", "checksum-services-unregistered")
+}
+
+// isDrainingChild reports whether this process is the "application-supplied checksum services" re-run of a
+// check, and if so replaces every registered service (through the public Remove/Registry API) by one that
+// computes the same function but READS the *bytes.Buffer it is given to the end, the way a service feeding a
+// hash.Hash with io.Copy would.  What the encoders append must not depend on how a service treats its input.
+func isDrainingChild(e *Env) bool {
+	if len(e.Args) > 0 && e.Args[0] == "draining-services-child" {
+		installDrainingServices()
+		return true
+	}
+	return false
+}
+
+func runDrainingChild(e *Env) {
+	runVariantChild(e, "draining-services-child", "draining", "rerun_with_services_that_read_their_input_to_the_end", "input-reading-checksum-services")
+}
+
+func runVariantChild(e *Env, mode, dirSuffix, evidenceKey, what string) {
 	r := e.R
 	if e.Only != "" || os.Getenv("VERIF_CHILD") != "" {
 		return
 	}
-	dir := filepath.Join(monRoot(), ".work", r.Prop+"-absent")
+	dir := filepath.Join(monRoot(), ".work", r.Prop+"-"+dirSuffix)
 	os.MkdirAll(dir, 0o755)
-	died, timedOut, sum, relayed := runOneChild([]string{r.Prop, "--tier", "quick", "--seed", fmt.Sprint(e.Seed), "registry-absent-child"}, filepath.Join(dir, "child.log"), filepath.Join(dir, "child.out"), 10*time.Minute, nil)
+	died, timedOut, sum, relayed := runOneChild([]string{r.Prop, "--tier", "quick", "--seed", fmt.Sprint(e.Seed), mode}, filepath.Join(dir, "child.log"), filepath.Join(dir, "child.out"), 10*time.Minute, nil)
 	r.Relay(relayed)
 	r.AddViolations(sum.Violations)
 	r.Evals(sum.Evaluations)
-	r.Set("rerun_with_checksum_services_unregistered", map[string]any{"evaluations": sum.Evaluations, "violations": sum.Violations})
+	r.Set(evidenceKey, map[string]any{"evaluations": sum.Evaluations, "violations": sum.Violations})
 	if died || timedOut {
 		out := tailFile(filepath.Join(dir, "child.out"), 1200)
 		if strings.Contains(out, "panic:") || strings.Contains(out, "fatal error") {
-			r.Violate(r.Prop+"/died-with-checksum-services-unregistered", r.Prop+"/died-with-checksum-services-unregistered", map[string]any{"output": out})
+			r.Violate(r.Prop+"/died-with-"+what, r.Prop+"/died-with-"+what, map[string]any{"output": out})
 		} else {
-			r.Inconclusive("re-run with unregistered checksum services did not complete: " + out)
+			r.Inconclusive("re-run with " + what + " did not complete: " + out)
 		}
 	}
 }
